@@ -91,19 +91,19 @@ def _conv(x, uni):
 
 
 @obligation(params=dict(c1=Int(0, 8), c2=Int(8, 8), quiet_at=Int(0, 3), end=Int(0, 1), shape=Int(0, 4), kindA=Int(0, 2),
-                        cbres=Int(0, 2), uni=Bool(), withexit=Bool(), status=Int(0, 255)),
+                        cbres=Int(0, 3), uni=Bool(), withexit=Bool(), status=Int(0, 255)),
             tags={2: 'ran to EOF', 3: 'ran into the timeout', 4: 'stopped by a callback', 5: 'TIMEOUT event fired and the run went on'},
             timeout=900, split=('shape', 'end', 'kindA'),
             thorough=dict(params=dict(c2=Int(0, 8)), timeout=3000, split=('shape', 'end', 'kindA', 'uni')),
             note='shape: 0 dict {PA,PB}, 1 list [(PB..),(PA..)], 2 list with TIMEOUT event, 3 list with EOF event, '
-                 '4 no events; kindA: response to PA is a string / function / method; cbres: what a callback returns')
+                 '4 no events; kindA: response to PA is a string / function / method; cbres: what a callback returns (None / a string to send / True to stop / 0)')
 def R1_run(c1, c2, quiet_at, end, shape, kindA, cbres, uni, withexit, status):
     n = len(STREAM)
     if not (c1 <= c2 <= n):
         return SKIP
     c1 = pick(c1, 0, n)
     c2 = pick(c2, c1, n)
-    shape, kindA, cbres, quiet_at = pick(shape, 0, 4), pick(kindA, 0, 2), pick(cbres, 0, 2), pick(quiet_at, 0, 3)
+    shape, kindA, cbres, quiet_at = pick(shape, 0, 4), pick(kindA, 0, 2), pick(cbres, 0, 3), pick(quiet_at, 0, 3)
     S = _conv(STREAM, uni)
     pieces = [S[:c1], S[c1:c2], S[c2:]]
     script = [('data', p) for p in pieces]
@@ -111,7 +111,7 @@ def R1_run(c1, c2, quiet_at, end, shape, kindA, cbres, uni, withexit, status):
         script.insert(quiet_at + 1, ('timeout',))
     script.append(('eof',) if end == 0 else ('timeout',))
     log = []
-    cb_value = [None, _conv('cb!', uni), True][cbres]
+    cb_value = [None, _conv('cb!', uni), True, 0][cbres]      # 0: falsy but not None - the run goes on
 
     def func(d):
         log.append(('func', d['event_count'], d['child'].after, sorted(d.keys())))
